@@ -6,6 +6,9 @@ import Qryn.Proofs.ProcessTraceQL
 import Qryn.Proofs.ProcessMetric
 import Qryn.LogQL.ProcessFormat
 import Qryn.LogQL.SemMetric
+import Qryn.Proofs.PlanHeap
+import Qryn.Gen.PlannerGlobalFlows
+import Qryn.Gen.PlannerListWrites
 /-! # C14 — query translation is deterministic and a prepared plan can be re-executed -/
 namespace Qryn.C14
 open Qryn Qryn.Sql Qryn.LogQL
@@ -414,4 +417,230 @@ theorem reexecution_same_meaning_traceql (script : TraceQL.Script) (p : TraceQL.
     (TraceQL.runsT p cs)[i]? = some (TraceQL.plan cs[i] script) := by
   rw [process_stable_traceql_plan script p h cs]
   simp [hi]
+end Qryn.C14
+
+/-! ## sharing between plan objects: the heap of column lists (`Sql/PlanHeap.lean`)
+
+    The planner models above build statements as VALUES, so two translations share nothing by construction. The Go
+    planners build them from `sql.Select` objects that keep and hand out SLICES (`Select(cols...)` stores its argument as
+    is, `GetSelect()` returns it), patch each other's lists in place and append to them. The heap model makes that
+    sharing explicit; the theorems say under which discipline it cannot carry anything from one translation to the next,
+    and the two regenerated facts below check that discipline on the source. -/
+namespace Qryn.C14
+open Qryn.PlanHeap
+
+/-- **translation_history_independent_heap.** For EVERY sequence of translations run one after the other in one process
+    — each any program over the heap of column lists: allocating lists, taking package-level lists, storing lists into
+    plan objects and loading them back (`Select(...)` / `GetSelect()`), writing in place (`cols[i] = …`), mapping in place,
+    appending with Go's capacity rule (in place when the array has room), copying, branching on what a list holds —:
+    if every translation keeps the discipline "a list stored into a plan object, written through or appended to was
+    allocated by THIS translation" (`Prog.Disciplined`: package-level lists are only read), then what the n-th translation
+    renders is what it renders as the FIRST translation of a fresh process. In-place writes of translation n land in
+    arrays translation n allocated and cannot reach translation n+1. (`G`: the package-level slices, allocated before the
+    first translation; `h0`: the heap at process start.) -/
+theorem translation_history_independent_heap {α : Type} (G : List Slice) (h0 : Heap α)
+    (hG : ∀ s ∈ G, s.ref < h0.next) (ps : List (Prog α)) (hd : ∀ p ∈ ps, p.Disciplined) :
+    runSeq G h0 ps = ps.map (fun p => (translate G h0 p).2) :=
+  (runSeq_frame G h0 hG ps h0 (Nat.le_refl _) (fun _ _ => rfl) hd).1
+
+/-- … and the package-level arrays hold after any such sequence what they held at process start -/
+theorem package_lists_never_change {α : Type} (G : List Slice) (h0 : Heap α)
+    (hG : ∀ s ∈ G, s.ref < h0.next) (ps : List (Prog α)) (hd : ∀ p ∈ ps, p.Disciplined) (a : Nat) (ha : a < h0.next) :
+    (heapAfter G h0 ps).cell a = h0.cell a :=
+  (runSeq_frame G h0 hG ps h0 (Nat.le_refl _) (fun _ _ => rfl) hd).2 a ha
+
+/-- the columns of the statements `MainRenewPlanner` and `LRAPlanner` exchange: (expression, alias) -/
+inductive ColName
+  | timestamp_ns | fingerprint | labels | string | _string | value
+deriving DecidableEq, Repr
+
+abbrev Column := ColName × ColName
+
+/-- `MainRenewPlanner.Process` as pinned: `Select(ts, fp)` (a new array of two), then
+    `req.Select(append(req.GetSelect(), string, value)...)` — the array is full, `append` copies. Plan object 0 = `req`. -/
+def renewPinned : List (Instr Column) :=
+  [.lit 0 [(.timestamp_ns, .timestamp_ns), (.fingerprint, .fingerprint)] 0, .store 0 0,
+   .load 1 0, .append 2 1 (.string, .string) 1, .append 3 2 (.value, .value) 0, .store 0 3]
+
+/-- the seeded shape: the column list hoisted into a package-level slice and handed to `Select(cols...)` -/
+def renewHoisted : List (Instr Column) := [.pkg 0 0, .store 0 0]
+
+/-- `LRAPlanner.Process`: `cols := main.GetSelect(); for i, c := range cols { if alias == "string" { cols[i] = NewCol(expr, "_string") } }` -/
+def lraPatch : List (Instr Column) :=
+  [.load 4 0, .mapAt 4 (fun c => if c.2 = .string then (c.1, ._string) else c)]
+
+/-- a range aggregation whose `LRAPlanner` receives the renewed SELECT, and a log query that only renews -/
+def metricQuery (renew : List (Instr Column)) : Prog Column := Prog.ofList (renew ++ lraPatch ++ [.emit 0])
+def logQuery (renew : List (Instr Column)) : Prog Column := Prog.ofList (renew ++ [.emit 0])
+
+/-- the process at start: one package-level array (address 0) holding the hoisted column list -/
+def renewHeap : Heap Column :=
+  ⟨fun a => if a = 0 then ⟨[(.timestamp_ns, .timestamp_ns), (.fingerprint, .fingerprint), (.string, .string), (.value, .value)], 4⟩ else ⟨[], 0⟩, 1⟩
+def renewGlobals : List Slice := [⟨0, 4⟩]
+
+/-- the pinned planners keep the discipline (so the theorem applies to every sequence of these translations), the
+    hypotheses are satisfiable, and both shapes render the same statement as the first translation of a process -/
+theorem pinned_renew_disciplined :
+    (metricQuery renewPinned).Disciplined ∧ (logQuery renewPinned).Disciplined ∧
+    (∀ s ∈ renewGlobals, s.ref < renewHeap.next) ∧
+    (translate renewGlobals renewHeap (logQuery renewPinned)).2 = (translate renewGlobals renewHeap (logQuery renewHoisted)).2 ∧
+    runSeq renewGlobals renewHeap [metricQuery renewPinned, logQuery renewPinned] =
+      [[[(.timestamp_ns, .timestamp_ns), (.fingerprint, .fingerprint), (.string, ._string), (.value, .value)]],
+       [[(.timestamp_ns, .timestamp_ns), (.fingerprint, .fingerprint), (.string, .string), (.value, .value)]]] := by
+  decide +kernel
+
+/-- **shared_package_list_counterexample.** The seeded shape: the hoisted list is not disciplined (`Select(cols...)` stores
+    a package-level slice), and ONE translation of the metric query changes what the log query translates to afterwards:
+    its renewed sub-select provides `_string` where the pristine translation provides `string` — while every translation
+    taken alone is unchanged. The in-place patch of `LRAPlanner` is the same in both worlds; the difference is only whose
+    array it lands in. -/
+theorem shared_package_list_counterexample :
+    ¬ (logQuery renewHoisted).Disciplined ∧
+    runSeq renewGlobals renewHeap [metricQuery renewHoisted, logQuery renewHoisted] ≠
+      [metricQuery renewHoisted, logQuery renewHoisted].map (fun p => (translate renewGlobals renewHeap p).2) ∧
+    (runSeq renewGlobals renewHeap [metricQuery renewHoisted, logQuery renewHoisted])[1]? =
+      some [[(.timestamp_ns, .timestamp_ns), (.fingerprint, .fingerprint), (.string, ._string), (.value, .value)]] ∧
+    (translate renewGlobals renewHeap (logQuery renewHoisted)).2 =
+      [[(.timestamp_ns, .timestamp_ns), (.fingerprint, .fingerprint), (.string, .string), (.value, .value)]] := by
+  decide +kernel
+
+/-- the second way a list can be shared: `append` into spare capacity. Two plan objects built from one list with room
+    (`a := append(base, x)`, `b := append(base, y)`): the second append overwrites what the first plan renders. Within a
+    translation this is the translation's own business (both arrays are its own — `Disciplined` admits it); with a
+    package-level `base` it is what the discipline excludes. -/
+theorem append_shares_spare_capacity :
+    (translate [] (⟨fun _ => ⟨[], 0⟩, 0⟩ : Heap Column)
+      (Prog.ofList [.lit 0 [(.timestamp_ns, .timestamp_ns)] 1, .append 1 0 (.string, .string) 0, .store 0 1,
+                    .append 2 0 (.value, .value) 0, .store 1 2, .emit 0, .emit 1])).2 =
+      [[(.timestamp_ns, .timestamp_ns), (.value, .value)], [(.timestamp_ns, .timestamp_ns), (.value, .value)]] := by
+  decide +kernel
+
+/-- the classes of the reviewed in-place-write table -/
+inductive ListWriteClass
+  /-- `x.Select(append(x.GetSelect(), c)...)` on a `Select` this function has just built: the array is the function's own -/
+  | ownList
+  /-- index write / append on the list of a `Select` ANOTHER planner returned (`Main.Process(ctx)`, an operand, a
+      parameter handed down by `Process`): lands in whatever that planner stored — its own fresh list as long as
+      `planner_lists_not_package_level` holds (`translation_history_independent_heap`) -/
+  | inputList
+  /-- the getter returns a copy (`GetWith`) -/
+  | getterCopies
+  /-- a slice of slices / of strings allocated by the same function, filled by index -/
+  | localMatrix
+  /-- not a list of a statement: result rows, value buffers, regexp group names, rendering options (`options ...int`),
+      the selector list of the script parsed for this request -/
+  | notPlanList
+deriving DecidableEq, Repr
+
+def inPlaceWriteClass : List (String × ListWriteClass) :=
+  let lt := "reader/logql/logql_transpiler_v2."
+  let cp := "reader/logql/logql_transpiler_v2/clickhouse_planner."
+  let tq := "reader/traceql/transpiler/clickhouse_transpiler."
+  [(lt ++ "FixPeriodPlanner.Process:append:elem", .notPlanList),
+   (lt ++ "fastFill:copy:param:v", .notPlanList),
+   (lt ++ "fastFill:index:param:v", .notPlanList),
+   (cp ++ "AggOpPlanner.Process:append:getter:GetSelect@input+own", .ownList),
+   (cp ++ "LRAPlanner.Process:append:getter:GetSelect@own", .ownList),
+   (cp ++ "LRAPlanner.Process:index:getter:GetSelect@input", .inputList),
+   (cp ++ "MainRenewPlanner.Process:append:getter:GetSelect@own ×2", .ownList),
+   (cp ++ "ParserPlanner.json:index:elem@fresh ×2", .localMatrix),
+   (cp ++ "QuantilePlanner.Process:append:getter:GetSelect@own", .ownList),
+   (cp ++ "StepFixPlanner.Process:append:getter:GetSelect@own", .ownList),
+   (cp ++ "TopKPlanner.Process:append:getter:GetSelect@own", .ownList),
+   (cp ++ "UnionSelect.GetWith:append:getter:GetWith@recvfield", .getterCopies),
+   (cp ++ "UnwrapPlanner.processTimeSeries:append:getter:GetSelect@param", .inputList),
+   (cp ++ "brackPart.collectGroupNames:append:param:init", .notPlanList),
+   (cp ++ "regexPart.collectGroupNames:append:param:init", .notPlanList),
+   (cp ++ "sqlMapInit.String:index:elem@fresh", .localMatrix),
+   ("reader/logql/logql_transpiler_v2/shared.ClickhouseGetterPlanner.Scan:index:field:Labels", .notPlanList),
+   ("reader/logql/logql_transpiler_v2/shared.ClickhouseGetterPlanner.ScanMatrix:index:field:Labels", .notPlanList),
+   ("reader/prof/transpiler.populateTypeId:append:field:Selectors", .notPlanList),
+   (tq ++ "AttrConditionPlanner.aggregator:append:getter:GetSelect@param ×2", .inputList),
+   (tq ++ "ComplexAndPlanner.Process:append:getter:GetSelect@elem", .inputList),
+   (tq ++ "ComplexOrPlanner.Process:append:getter:GetSelect@elem", .inputList),
+   ("reader/utils/sql_select.Col.String:append:param:options", .notPlanList),
+   ("reader/utils/sql_select.Select.String:append:param:options", .notPlanList)]
+
+/-- **planner_inplace_writes_pinned.** Every place in the translation packages (420 functions scanned, regenerated) where
+    a slice or map that the function did not allocate itself is written IN PLACE — `x[i] = v`, `append(x, …)` (which writes
+    into x's array when it has room), `copy`, `delete`, `clear` — is in this reviewed table, with the origin of the list
+    (the getter of a `Select` the function built / received from another planner / a parameter / a field) and its class.
+    The five `inputList` sites are the writes that reach into another planner's list (`LRAPlanner.Process` patches the
+    column `string` of its input in place; `UnwrapPlanner`, `AttrConditionPlanner.aggregator`, `ComplexAnd/OrPlanner`
+    append to their operands' lists): they are harmless exactly as long as those lists are allocated per translation. A
+    new in-place write, or one whose list comes from somewhere else, changes the inventory and fails this obligation;
+    the `history-cross` stream then searches a sequence of translations on which it shows. -/
+theorem planner_inplace_writes_pinned :
+    Qryn.Gen.plannerInPlaceWrites = inPlaceWriteClass.map (·.1) ∧ 300 ≤ Qryn.Gen.plannerListFuncs := by decide
+
+/-- **planner_lists_not_package_level.** The other half: every list handed to a plan object without copying
+    (`f(x...)`: `Select`, `GroupBy`, `OrderBy`, `And`, `Or`, `AndWhere`, `AddWith`, …) that is neither freshly allocated
+    by the caller nor a wrapper's own variadic parameter comes from a getter of a `Select` of the same translation, from
+    a field of the request's own planner objects (`Matchers`, `globalMatchers`, `kvMatchers`: built by `Plan…` for this
+    request), or from `aggregator` (returns fresh conditions) — reviewed list; and NO in-place write and NO such store
+    has a list of package-level or unknown origin. -/
+theorem planner_lists_not_package_level :
+    Qryn.Gen.plannerListGlobalOrigins = [] ∧
+    Qryn.Gen.plannerSpreadStoresShared =
+      (let cp := "reader/logql/logql_transpiler_v2/clickhouse_planner."
+       let pf := "reader/prof/transpiler."
+       let tq := "reader/traceql/transpiler/clickhouse_transpiler."
+       [cp ++ "AggOpPlanner.Process:Select:getter:GetSelect@input+own",
+        cp ++ "LRAPlanner.Process:Select:getter:GetSelect@own",
+        cp ++ "MainRenewPlanner.Process:Select:getter:GetSelect@own ×2",
+        cp ++ "QuantilePlanner.Process:Select:getter:GetSelect@own",
+        cp ++ "StepFixPlanner.Process:Select:getter:GetSelect@own",
+        cp ++ "TopKPlanner.Process:Select:getter:GetSelect@own",
+        cp ++ "UnwrapPlanner.processSimple:Select:getter:GetSelect@param",
+        cp ++ "UnwrapPlanner.processTimeSeries:Select:getter:GetSelect@param",
+        pf ++ "GetLabelsPlanner.Process:AndWhere:field:globalMatchers",
+        pf ++ "MergeProfilesPlanner.Process:AndWhere:field:globalMatchers",
+        pf ++ "MergeRawPlanner.Process:And:field:globalMatchers",
+        pf ++ "SelectSeriesPlanner.Process:AndWhere:field:globalMatchers",
+        pf ++ "StreamSelectorPlanner.Process:And:field:globalMatchers",
+        pf ++ "StreamSelectorPlanner.Process:Or:field:kvMatchers",
+        pf ++ "TimeSeriesSelectPlanner.Process:AndWhere:field:globalMatchers",
+        "reader/promql/transpiler.StreamSelectPlanner.Process:fingerprintsQuery:recvfield:Matchers",
+        tq ++ "AttrConditionPlanner.Process:Or:call:aggregator",
+        tq ++ "AttrConditionPlanner.aggregator:Select:getter:GetSelect@param ×2",
+        tq ++ "ComplexAndPlanner.Process:Select:getter:GetSelect@elem",
+        tq ++ "ComplexOrPlanner.Process:Select:getter:GetSelect@elem",
+        "reader/utils/sql_select.Select.AddWith:AddWith:getter:GetWith@elem"]) := by decide
+
+/-- why a package-level variable cannot carry anything from one translation to the next -/
+inductive GlobalClass
+  /-- lexer rules / lexer definition / generated parser: built at init, handed to participle, which only reads them -/
+  | lexerDefinition
+  /-- `*regexp.Regexp`: immutable, safe for concurrent use -/
+  | compiledRegexp
+  /-- the function table of `line_format` (in-process engine): passed to `template.Funcs`, which copies the entries into
+      the template's own map; no SQL plan object ever holds it -/
+  | templateFuncs
+deriving DecidableEq, Repr
+
+def reviewedGlobals : List ((String × String × List String) × GlobalClass) :=
+  [(("reader/logql/logql_parser.LogQLLexerDefinition", "call:lexer.MustSimple", ["arg:Lexer"]), .lexerDefinition),
+   (("reader/logql/logql_parser.LogQLLexerRulesV2", "slice", ["init:LogQLLexerDefinition"]), .lexerDefinition),
+   (("reader/logql/logql_transpiler_v2/clickhouse_planner.regexParserDesc", "call:lexer.MustSimple", ["arg:Lexer"]), .lexerDefinition),
+   (("reader/logql/logql_transpiler_v2/internal_planner.functionMap", "call:func()type:template.FuncMap", ["arg:Funcs"]), .templateFuncs),
+   (("reader/logql/logql_transpiler_v2/internal_planner.sanitizeRe", "call:regexp.MustCompile", ["method:ReplaceAllString"]), .compiledRegexp),
+   (("reader/logql/logql_transpiler_v2/shared.symbols", "map", ["ret@Symbols"]), .lexerDefinition),
+   (("reader/prof/parser.LogQLLexerRulesV2", "slice", ["init:ProfLexerDefinition"]), .lexerDefinition),
+   (("reader/prof/parser.Parser", "call:MustBuild", ["method:ParseString"]), .lexerDefinition),
+   (("reader/prof/parser.ProfLexerDefinition", "call:lexer.MustSimple", ["init:Parser"]), .lexerDefinition),
+   (("reader/prof/parser.parseReg", "call:regexp.MustCompile", []), .compiledRegexp),
+   (("reader/traceql/parser.TraceQLLexerDefinition", "call:lexer.MustSimple", ["arg:Lexer"]), .lexerDefinition),
+   (("reader/traceql/parser.TraceQLLexerRulesV2", "slice", ["init:TraceQLLexerDefinition"]), .lexerDefinition)]
+
+/-- **planner_globals_not_handed_to_plans.** For every package-level variable of the translation packages (the in-process
+    planner package included) the regenerated fact gives its kind and EVERY use anywhere under reader/ (also through a
+    local alias `x := g`). The table is exact; no variable of reference kind is handed to a plan object, aliased, put
+    into a literal, returned, re-sliced, written or has its address taken — the one hand-over outside the lexer
+    definitions is `functionMap` to `template.Funcs` (copied by text/template). A package-level slice of columns handed to
+    `Select(cols...)` (the seeded shape: `alias:cols`, `via(cols):spread:Select`), a `sync.Pool` of `Select` objects
+    (`method:Get`, `method:Put` on a new variable), a package-level memo map (`index-write`) each change this fact. -/
+theorem planner_globals_not_handed_to_plans :
+    Qryn.Gen.plannerGlobalFlows = reviewedGlobals.map (·.1) ∧
+    Qryn.Gen.plannerGlobalsIntoPlan = ["reader/logql/logql_transpiler_v2/internal_planner.functionMap arg:Funcs"] := by decide
+
 end Qryn.C14
